@@ -504,7 +504,9 @@ def kind(h) -> str:
 FIXED_OBJECTS = [0, 1, 2, True, False, 'a', 'b', None, U0(), U1(), [], [1], [True], ['a'], [None], [[1]], [[True]],
                  (), (1,), (True,), ('a',), (1, 2), (True, 1), (1, 'a'), ([1],), ([True], 1), (1, 'a', True),
                  {}, {'a': 1}, {'a': True}, {'a': [1]}, {'a': [True]}, frozenset(), frozenset({1}), frozenset({True}),
-                 {1}, [(1,)], [(True, 1)], [(1, 2)], len, int]
+                 {1}, [(1,)], [(True, 1)], [(1, 2)], len, int,
+                 collections.Counter('ab'), collections.Counter(), {'a': 1}.items(), {'a': 1}.keys(), {'a': b'x'}, {'a': 'b'},
+                 (i for i in ()), iter([1])]
 
 
 def explore(ck: Check, n_random: int, seed: int, big: bool) -> Explore:
